@@ -183,7 +183,9 @@ prop(
         "replacement table; (iii) adjoint / add / neg / sub structure; (v) NumberOperator._eval_power collapses N**k to N only for "
         "fermion and spin modes and integer k != 0 (grid over operator type x exponent); (vi) memo tables of the arithmetic are keyed "
         "by everything the cached value reads. Not decided: from_expr on arbitrary expression "
-        "trees, non-integer powers, simplification."),
+        "trees, non-integer powers, simplification."
+        " Stored coefficients are written over placeholder symbols: a test for NumberOperator objects on one of them is reported as "
+        "a dead guard [E10.placeholders]."),
 )
 
 prop(
@@ -334,7 +336,10 @@ prop(
         "decided clauses: _check_finite rejects, for every member of the declared OneItem union, negative and "
         "unbounded order items with IndexError and accepts the valid ones (interpreted on representatives), both "
         "validators dominate index resolution and evaluation, at most one evaluation while cached, a PENDING hit "
-        "raises RuntimeError, the shipped recursions are well-founded."),
+        "raises RuntimeError, the shipped recursions are well-founded; the trial array is large enough for every order an "
+        "index item selects (ints, lists, stepped slices) [E2.check_finite]; the evals of finite-only views read the parent at "
+        "`item + index` (the user's own index expression, so numpy decides which blocks a slice selects), and a view that "
+        "translates positions itself from the start of each slice only is reported [E2.views]."),
 )
 
 prop(
@@ -347,7 +352,10 @@ prop(
         "construction of the computation or the first use of the ill-defined quantity; the shared-eigenvalue check "
         "compares all pairs, precedes every division and is memoised only after passing; every reciprocal of an energy "
         "difference reachable with index[0] == index[1] is guarded (finiteness); every eval / solver / mask callback "
-        "ends in `return <value>` or `raise` on all paths."),
+        "ends in `return <value>` or `raise` on all paths."
+        " Position-wise pairings of two dictionaries (zip of their views) are pairings by key only if the second dictionary is built "
+        "by iterating the first one itself [E5.pairing]; linalg.is_diagonal inspects every off-diagonal entry of a dense H_0 "
+        "[E11.is_diagonal]."),
 )
 
 NOT_APPLICABLE = {
